@@ -508,15 +508,14 @@ class PolygonTensor(PolytopeTensor):
                 if np.all(e.dependent_values):
                     # the segment lies in the plane of the polygon: no isolated point of intersection
                     return []
-                if isinstance(other, SegmentTensor):
+                # only collections can be restricted to the independent positions, single operands are kept
+                polygons: PolygonTensor = self
+                if self._plane.free_indices > 0:
+                    polygons = PolygonCollection.from_tensor(self[~e.dependent_values])
+                if other._line.free_indices > 0:
                     other = cast(SegmentTensor, other[~e.dependent_values])
-                result = cast(PlaneTensor, self._plane[~e.dependent_values]).meet(other._line)
-                return list(
-                    result[
-                        PolygonCollection.from_tensor(self[~e.dependent_values]).contains(result)
-                        & other.contains(result)
-                    ]
-                )
+                result = polygons._plane.meet(other._line)
+                return list(result[polygons.contains(result) & other.contains(result)])
             else:
                 ind = self.contains(result) & other.contains(result)
                 if result.free_indices == 0:
@@ -529,10 +528,14 @@ class PolygonTensor(PolytopeTensor):
             if np.all(e.dependent_values):
                 # the line lies in the plane of the polygon: no isolated point of intersection
                 return []
+            # only collections can be restricted to the independent positions, single operands are kept
+            polygons = self
+            if self._plane.free_indices > 0:
+                polygons = PolygonCollection.from_tensor(self[~e.dependent_values])
             if other.free_indices > 0:
                 other = other[~e.dependent_values]
-            result = cast(PlaneTensor, self._plane[~e.dependent_values]).meet(other)
-            return list(result[PolygonCollection.from_tensor(self[~e.dependent_values]).contains(result)])
+            result = polygons._plane.meet(other)
+            return list(result[polygons.contains(result)])
         else:
             ind = self.contains(result)
             if result.free_indices == 0:
